@@ -15,6 +15,12 @@ short = {
  'C06-a': ("merge/update.go Update: 'nothing to rewrite' fast path ignores removals", "a second update by the same updater whose only effect is a removal of one of its own fields"),
  'C06-b': ("the pooled compareWalker / inLeaf slip again (seen from C06: removals are not reported, owners keep paths that are gone)", "an empty-versus-empty comparison earlier, then an update that removes an owned field"),
  'C07-a': ("merge/update.go Apply: early exit 'owns nothing, claims nothing' returns no object", "fresh manager applying a configuration made only of empty lists / {} onto an object lacking them"),
+ 'C07-b': ("the aliasing in EnsureNamedFieldsAreMembers once more (seen from C07: a re-apply rewrites the applier's own record)", "a second apply by a manager whose record has 3, 5–7 leaf members at a nested struct level and a struct sibling sorting before one of them"),
+ 'C08-b': ("fieldpath/set.go SetNodeMap.RecursiveDifference: binary-search fast-forward keeps `s.members[:i]` with the receiver's capacity, later appends write into the receiver", "s2 with children only at some level, s with an earlier child and a later child that loses something (reached through reconciliation when a nested struct turns atomic)"),
+ 'C09-b': ("schema/elements.go Resolve: a field-level elementRelationship override is written into the shared named LIST type instead of a copy", "a named list type referenced both plainly and with an override; any earlier call that resolves the overriding reference changes later results"),
+ 'C10-b': ("value/reflectcache.go: ordered field list sorted lazily under a sync.Once that lives in a copied struct, so concurrent first uses sort one shared slice", "several goroutines iterating a previously unseen struct type for the first time at once"),
+ 'C17-b': ("value/list.go ListCompareUsing: returns the length difference instead of -1/0/+1 while Less is `Compare == -1`", "a list that is a proper prefix of another and shorter by two or more"),
+ 'C18-b': ("value/mapreflect.go Has: `IsValid() && !IsZero()`: a key whose element is the zero value reads as absent", "a reflected Go map with a zero-valued entry on the left of a zip / Compare against a generic map"),
  'C08-a': ("fieldpath/set.go EnsureNamedFieldsAreMembers: starts from the operand's member slice instead of a copy", "set node with spare capacity in its member slice (3, 5–7, 9–15 members) and a named child sorting before a member"),
  'C09-a': ("merge/update.go addBackOwnedItems: the round's 'changed' flag keeps only the last version's answer", "managers at three versions with an ownership chain through a nested item; result then depends on map iteration order"),
  'C10-a': ("typed compareWalker returned to its pool without resetting inLeaf", "a Compare on a leaf-rooted type, then any Compare drawing the same pooled walker (other goroutine, other schema)"),
